@@ -772,6 +772,8 @@ def _inline_helpers(P: Program, f: Func, depth: int = 2) -> Func:
                 call, kind = st.value, "assign"
             elif isinstance(st, ast.Return) and isinstance(st.value, ast.Call):
                 call, kind = st.value, "return"
+            elif isinstance(st, ast.Expr) and isinstance(st.value, ast.Yield) and isinstance(st.value.value, ast.Call):
+                call, kind = st.value.value, "yield"
             target = _inlinable(P, f, call) if (call is not None and d > 0) else None
             if target is not None:
                 counter[0] += 1
@@ -791,6 +793,8 @@ def _inline_helpers(P: Program, f: Func, depth: int = 2) -> Func:
                     out.append(ast.copy_location(ast.Assign(targets=st.targets, value=ret if ret is not None else ast.Constant(None)), st))
                 elif kind == "return":
                     out.append(ast.copy_location(ast.Return(value=ret), st))
+                elif kind == "yield":
+                    out.append(ast.copy_location(ast.Expr(value=ast.copy_location(ast.Yield(value=ret), st)), st))
                 changed_any = True
                 continue
             # `for x in helper(...)` / `if helper(...)`: the call is evaluated exactly once, before the statement
